@@ -14,11 +14,11 @@ type ReaderAt interface {
 }
 
 type File struct {
-	Path   string // names as recorded (version suffix ";1" stripped), joined with /
-	IsDir  bool
-	LBA    uint32
-	Size   uint32
-	Data   []byte
+	Path  string // names as recorded (version suffix ";1" stripped), joined with /
+	IsDir bool
+	LBA   uint32
+	Size  uint32
+	Data  []byte
 }
 
 type Result struct {
